@@ -100,10 +100,10 @@ theorem C07_lex_layout_exec_partial (e : Expr) (hw : lexWF e) (p : Bool) (q : Op
 
 /-- **`parse ∘ lex ∘ layout ∘ print` is the identity, at every line length** (expressions as in `C07_lex_layout_partial` that
 the parser can build, `wfE`): the characters the layout engine writes for `e` are read by the scanner as tokens that the
-precedence parser turns back into `e` up to the regrouping of associative chains (`norm`) — the statement of
+precedence parser turns back into `e` itself — the statement of
 `C07_parse_print`, now from the character level -/
 theorem C07_char_roundtrip_partial (e : Expr) (hw : wfE e) (hl : lexWF e) (st : PState) (h0 : st.pieces = []) (hs : st.spaceLast = false) :
-    (lex (run st (exprFrags Shared.clean e false none)).text).bind parse = some (norm e) := by
+    (lex (run st (exprFrags Shared.clean e false none)).text).bind parse = some e := by
   rw [C07_lex_layout_exec_partial e hl false none st h0 hs]
   exact C07_parse_print e hw
 
@@ -128,11 +128,10 @@ theorem C07_lex_layout_respelled_partial (e : Expr) (hw : lexWF (respell e)) (p 
   rw [← C07_print_respells e hw p q]
   exact C07_lex_layout_partial (respell e) hw p q st TS hK
 
-/-- print → layout at any line length → scan → parse gives `e` back with its real literals respelled and associative chains
-regrouped -/
+/-- print → layout at any line length → scan → parse gives `e` back with its real literals respelled -/
 theorem C07_char_roundtrip_respelled_partial (e : Expr) (hw : wfE (respell e)) (hl : lexWF (respell e)) (st : PState)
     (h0 : st.pieces = []) (hs : st.spaceLast = false) :
-    (lex (run st (exprFrags Shared.clean e false none)).text).bind parse = some (norm (respell e)) := by
+    (lex (run st (exprFrags Shared.clean e false none)).text).bind parse = some (respell e) := by
   rw [← C07_print_respells e hl false none]
   exact C07_char_roundtrip_partial (respell e) hw hl st h0 hs
 
